@@ -467,7 +467,7 @@ def main(tier, seed):
             progs.append(p)
     ncur = len(progs)
     rng = random.Random(seed)
-    nrand = 150 if tier == "quick" else 1500
+    nrand = 150 if tier == "quick" else 600
     g = pg.ProgGen(rng, max_ops=8, arrays=False, loops=False)
     tries = 0
     while len(progs) < ncur + nrand and tries < nrand * 10:
